@@ -177,34 +177,34 @@ theorem dtdSites_names (c : DtdContent) : (dtdSites c).map (·.name) = dtdNames 
   rw [dtdSites_eq_sites, sites_names]; rfl
 
 theorem occurs_dtdSites (c : DtdContent) (hd : (dtdNames c).Nodup) :
-    occurs (dtdSites c) = some ((dtdSites c).map processAttrPath) := by
+    occurs (dtdSites c) = (dtdSites c).map processAttrPath := by
   rw [dtdSites_eq_sites]; exact occurs_sites _ hd
 
 theorem dtd_nonlist_sound_core (c : DtdContent) (hp : noPcdata c = true) (hd : (dtdNames c).Nodup)
     (p : Particle) (hcp : c.toParticle = some p) (w : List Str) (hw : Matches p w)
-    (ss : List Site) (h : occurs (dtdSites c) = some ss) (s : Site) (hs : s ∈ ss)
+    (s : Site) (hs : s ∈ occurs (dtdSites c))
     (hl : s.isList = false) : w.count s.name ≤ 1 := by
   rw [toParticle_eq_toParticleV c hp, Option.some.injEq] at hcp
   subst hcp
-  rw [dtdSites_eq_sites] at h
-  exact nonlist_sound_core _ hd w hw ss h s hs hl
+  rw [dtdSites_eq_sites] at hs
+  exact nonlist_sound_core _ hd w hw s hs hl
 
 theorem dtd_required_sound_core (c : DtdContent) (hp : noPcdata c = true) (hd : (dtdNames c).Nodup)
     (p : Particle) (hcp : c.toParticle = some p) (w : List Str) (hw : Matches p w)
-    (ss : List Site) (h : occurs (dtdSites c) = some ss) (s : Site) (hs : s ∈ ss)
+    (s : Site) (hs : s ∈ occurs (dtdSites c))
     (hr : 1 ≤ s.min) (hl : s.isList = false) : w.count s.name = 1 := by
   rw [toParticle_eq_toParticleV c hp, Option.some.injEq] at hcp
   subst hcp
-  rw [dtdSites_eq_sites] at h
-  exact required_sound_core _ hd (wf_toParticleV c) w hw ss h s hs hr hl
+  rw [dtdSites_eq_sites] at hs
+  exact required_sound_core _ hd (wf_toParticleV c) w hw s hs hr hl
 
 theorem dtd_list_needed_core (c : DtdContent) (hp : noPcdata c = true) (hd : (dtdNames c).Nodup)
     (hlive : dtdLive c = true) (p : Particle) (hcp : c.toParticle = some p)
-    (ss : List Site) (h : occurs (dtdSites c) = some ss) (s : Site) (hs : s ∈ ss)
+    (s : Site) (hs : s ∈ occurs (dtdSites c))
     (hl : s.isList = true) : ∃ w, Matches p w ∧ 2 ≤ w.count s.name := by
   rw [toParticle_eq_toParticleV c hp, Option.some.injEq] at hcp
   subst hcp
-  rw [dtdSites_eq_sites] at h
-  exact list_needed_core _ hd (wf_toParticleV c) hlive ss h s hs hl
+  rw [dtdSites_eq_sites] at hs
+  exact list_needed_core _ hd (wf_toParticleV c) hlive s hs hl
 
 end Xs.Gen
